@@ -81,7 +81,7 @@ fn main() {
         sections.push(Section {
             name: "builtin_fmt_traits",
             explore: Box::new(|cx: &Cx| {
-                cx.rule("builtin_fmt_traits", "hand member xq: a type implements each of the nine built-in formatting traits (Display, Debug, Octal, LowerHex, UpperHex, Pointer, Binary, LowerExp, UpperExp) with its own distinct output; a group holding all nine (boxed, with and without a CArc context) is formatted with every specifier into a String - the text and the Ok/Err verdict must equal those of formatting the value directly, for an implementor that succeeds and for one that returns Err by itself after part of its output");
+                cx.rule("builtin_fmt_traits", "hand member xq: a type implements each of the nine built-in formatting traits (Display, Debug, Octal, LowerHex, UpperHex, Pointer, Binary, LowerExp, UpperExp) with its own distinct output; a group holding all nine (boxed, with and without a CArc context) is formatted with every specifier into a String - the text and the Ok/Err verdict must equal those of formatting the value directly, for an implementor that succeeds and for one that returns Err by itself after part of its output; built-in Write objects (by reference and boxed) over a sink that records every piece and refuses the k-th call: a script of write_str calls incl. empty strings gives the same per-call results, pieces and call count as on the sink directly");
                 for (idx, desc, f) in h_objects::all_raw_checks() {
                     if !desc.starts_with("[C01]") {
                         continue;
